@@ -306,7 +306,8 @@ def execute(sc, tape=None):
                                             sc["transient"]["kind"], sc["transient"]["rel"], common.short(got_, 200),
                                             common.short(refs[key_], 200))}
                 for c, cl in conns:
-                    if hit and cl["kind"] in ("menu", "menu-via-symlink", "menu-root"):
+                    if hit and cl["kind"] in ("menu", "menu-via-symlink", "menu-root", "gophermap"):
+                        # (the gophermap links to /docs and the root menu lists it: both read docs/.abstract)
                         # one of these workers saw the failure: its own answer may lack the entry, and which
                         # worker it was is not observable from outside
                         resps.append(bytes(c.s2c))
